@@ -5,11 +5,13 @@ package main
 import (
 	"bytes"
 	"fmt"
+	"io"
 	"math"
 	"sort"
 	"strings"
 
 	"github.com/tobgu/qframe"
+	"github.com/tobgu/qframe/config/csv"
 	"github.com/tobgu/qframe/config/newqf"
 	"github.com/tobgu/qframe/types"
 	"verifharness/hlib"
@@ -108,6 +110,18 @@ func runOp(s *hlib.Suite, qf qframe.QFrame, desc map[string]interface{}, op func
 			_ = qf.Eval("sib4", qframe.Val(types.ColumnName(first)))
 			_ = qf.Sort(qframe.Order{Column: first, Reverse: true})
 			_ = qf.Slice(0, qf.Len()/2).Copy("sib5", first)
+			names := qf.ColumnNames()
+			rev := make([]string, len(names))
+			for i, n := range names {
+				rev[len(names)-1-i] = n
+			}
+			_ = qf.ToCSV(io.Discard, csv.Columns(rev))
+			_ = qf.ToCSV(io.Discard, csv.Columns(append([]string{"nosuchcolumn"}, names...)))
+			_ = qf.ToJSON(io.Discard)
+			_ = qf.String()
+			if eq, _ := qf.Equals(out); eq {
+				_ = eq
+			}
 		})
 		if safeDigest(out) != dOut {
 			s.Fail(id, fmt.Sprintf("the result of %v changed when further operations were applied to the same receiver", desc["op"]), desc, "")
@@ -129,10 +143,13 @@ func strList(l []string) string {
 
 func pickNames(r *hlib.Rng, cols []genCol, malformed bool) []string {
 	k := r.Intn(len(cols) + 2)
+	if malformed && r.Chance(1, 3) {
+		k += 1 + r.Intn(3) // more names than there are columns
+	}
 	out := []string{}
 	for i := 0; i < k; i++ {
-		if malformed && r.Chance(1, 5) {
-			out = append(out, "nosuch")
+		if malformed && r.Chance(1, 3) {
+			out = append(out, []string{"nosuch", "legacy_id", "legacy_ts", "nosuch2"}[r.Intn(4)])
 		} else {
 			out = append(out, cols[r.Intn(len(cols))].name) // duplicates on purpose
 		}
@@ -202,15 +219,15 @@ func dstName(r *hlib.Rng, cols []genCol, malformed bool) string {
 // ---------------------------------------------------------------- Apply
 
 type instrNode struct {
-	goI   qframe.Instruction
+	goI qframe.Instruction
 	// complete evaluates the (pure) function on every physical cell of its source column(s) in the given dumps,
 	// so that the specification can look up the value for the RIGHT cell even if the implementation passed a wrong one
 	complete func(ds ...qframe.VerifFrame)
 	coqFn    func() string
-	dst   string
-	src1  string
-	src2  string
-	desc  string
+	dst      string
+	src1     string
+	src2     string
+	desc     string
 	// callsFn reports how often the instruction's callback has been invoked so far (every recorded call)
 	callsFn func() int
 }
@@ -311,6 +328,10 @@ func outS(k int, x interface{}) *string {
 		if len(*v) == 0 && k%3 == 0 {
 			return nil
 		}
+		if k >= 3 {
+			// "keep the value": the function hands back the very pointer it was given
+			return v
+		}
 		return sp(*v + "!")
 	default:
 		if outI(k, x)%5 == 0 {
@@ -335,7 +356,13 @@ func genInstr(r *hlib.Rng, cols []genCol, avail *[]genCol, malformed bool) instr
 		}
 		return ""
 	}
-	switch r.Intn(10) {
+	choice := r.Intn(10)
+	for _, c := range all {
+		if (c.kind == "string" || c.kind == "enum") && r.Chance(1, 8) {
+			choice = 3 // the built in function, more often where it can apply
+		}
+	}
+	switch choice {
 	case 0: // constant
 		var fn interface{}
 		var c string
@@ -538,7 +565,11 @@ func genInstr(r *hlib.Rng, cols []genCol, avail *[]genCol, malformed bool) instr
 		var fn interface{}
 		switch t {
 		case "int":
-			fn = func(x, y int) int { v := x - 2*y + k; rec = append(rec, "("+cInt(x)+", "+cInt(y)+", "+cInt(v)+")"); return v }
+			fn = func(x, y int) int {
+				v := x - 2*y + k
+				rec = append(rec, "("+cInt(x)+", "+cInt(y)+", "+cInt(v)+")")
+				return v
+			}
 		case "float":
 			fn = func(x, y float64) float64 {
 				v := x - y
@@ -546,7 +577,11 @@ func genInstr(r *hlib.Rng, cols []genCol, avail *[]genCol, malformed bool) instr
 				return v
 			}
 		case "bool":
-			fn = func(x, y bool) bool { v := x && !y; rec = append(rec, "("+cBool(x)+", "+cBool(y)+", "+cBool(v)+")"); return v }
+			fn = func(x, y bool) bool {
+				v := x && !y
+				rec = append(rec, "("+cBool(x)+", "+cBool(y)+", "+cBool(v)+")")
+				return v
+			}
 		default:
 			fn = func(x, y *string) *string {
 				var v *string
@@ -943,10 +978,14 @@ func newCase(r *hlib.Rng, s *hlib.Suite) {
 	// a malformed case carries exactly ONE fault class, so that no other error can mask it:
 	// 0 illegal name, 1 one column of another length, 2 negative constant count, 3 unsupported data type,
 	// 4 enum declaration for a missing column, 5 bad ColumnOrder, 6 several faults at once (the old mix),
-	// 7 a name repeated in ColumnOrder (of the right length), 8 an enum declaration listing a value twice
+	// 7 a name repeated in ColumnOrder (of the right length), 8 an enum declaration listing a value twice,
+	// 9 an enum declaration for a column that exists but does not hold string data
 	fault := -1
 	if malformed {
-		fault = r.Intn(9)
+		fault = r.Intn(10)
+		if fault == 9 && k < 1 {
+			k = 1 + r.Intn(3)
+		}
 		if fault == 7 && k < 2 {
 			k = 2 + r.Intn(3)
 		}
@@ -992,6 +1031,9 @@ func newCase(r *hlib.Rng, s *hlib.Suite) {
 		}
 		if fault == 2 && i == 0 {
 			kind = []int{6, 9}[r.Intn(2)]
+		}
+		if fault == 9 && i == 0 {
+			kind = []int{0, 1, 2, 6, 7, 8}[r.Intn(6)]
 		}
 		if fault == 3 && i == 0 {
 			kind = 10
@@ -1067,7 +1109,7 @@ func newCase(r *hlib.Rng, s *hlib.Suite) {
 			vals := append([]string{}, strPool...)
 			vals = append(vals, vals[r.Intn(len(vals))])
 			enums[name] = vals
-		} else if (isStr && r.Chance(1, 2)) || (fault == 6 && r.Chance(1, 10)) {
+		} else if (isStr && r.Chance(1, 2)) || (fault == 6 && r.Chance(1, 10)) || (fault == 9 && i == 0) {
 			switch r.Intn(3) {
 			case 0:
 				enums[name] = nil
@@ -1147,6 +1189,9 @@ func newCase(r *hlib.Rng, s *hlib.Suite) {
 func enumBoundaryCase(r *hlib.Rng, s *hlib.Suite) {
 	ks := []int{1, 2, 63, 64, 65, 127, 128, 129, 191, 192, 193, 253, 254, 255, 256, 257, 300}
 	k := ks[r.Intn(len(ks))]
+	if r.Chance(1, 4) {
+		k = 254 + r.Intn(2) // the full value list and the one below it
+	}
 	vals := make([]string, k)
 	for i := range vals {
 		vals[i] = fmt.Sprintf("v%03d", i)
@@ -1206,6 +1251,44 @@ func enumBoundaryCase(r *hlib.Rng, s *hlib.Suite) {
 	s.Add(fmt.Sprintf("FNew [(%s, DStrPtrs %s)] [] [(%s, %s)] %s", hlib.Str("E"), hlib.List(it), hlib.Str("E"), strList(decl), coqFrame(od)), desc, true)
 	if out.Err != nil || out.Len() == 0 {
 		return
+	}
+	// Equals against a frame with another value list: one row where this frame holds null / a declared value and
+	// the other one a string this frame's list does not know (value lists of up to 255 entries on either side)
+	combos := [][2]int{{r.Intn(3), r.Intn(2)}}
+	if k >= 254 && k <= 255 {
+		combos = [][2]int{{0, 0}, {0, 1}, {1, 0}, {1, 1}, {2, 0}, {2, 1}}
+	} else if r.Chance(1, 2) {
+		combos = nil
+	}
+	for _, cb := range combos {
+		row := r.Intn(len(data))
+		data2 := append([]*string{}, data...)
+		switch cb[0] {
+		case 0:
+			data2[row] = sp("zzz-unknown")
+		case 1:
+			data2[row] = nil
+		}
+		mine := append([]*string{}, data...)
+		if cb[1] == 1 {
+			mine[row] = nil
+		}
+		a := qframe.New(map[string]types.DataSlice{"E": mine}, newqf.Enums(map[string][]string{"E": decl}))
+		b := qframe.New(map[string]types.DataSlice{"E": data2}, newqf.Enums(map[string][]string{"E": nil}))
+		if a.Err == nil && b.Err == nil {
+			for _, pr := range [][2]qframe.QFrame{{a, b}, {b, a}} {
+				x, y := pr[0], pr[1]
+				descE := map[string]interface{}{"op": "equals", "enum-cardinality": k, "declared": declared, "row": row, "props": []string{"C09", "C17"}}
+				var eq bool
+				idE := s.NextID()
+				if p, v := hlib.Recover(func() { eq, _ = x.Equals(y) }); p {
+					s.Fail(idE, fmt.Sprintf("Equals panicked: %v", v), descE, "")
+					continue
+				}
+				s.Count("enum-boundary-equals-" + fmt.Sprint(eq))
+				s.Add(fmt.Sprintf("FEquals %s %s %s", coqFrame(qframe.VerifDump(x)), coqFrame(qframe.VerifDump(y)), hlib.Bool(eq)), descE, true)
+			}
+		}
 	}
 	// a filter against ranks around the word boundaries of the bitset / the comparison kernels
 	target := vals[r.Intn(k)]
